@@ -191,6 +191,75 @@ def witness_ok(G, args, wit):
     return {"walks": walks, "weights": [str(q) for q in ws]}
 
 
+def cap_certificate(G, attr="flow"):
+    """Certificate that the flow on G has NO decomposition (into any number of walks, any real weights) that respects
+    the implementation's repetition caps -- i.e. the open finding rep_cap_from_own_flow and nothing else:
+    an edge e inside a strongly connected component C with  f(e) > cap(e) * inflow(C),  where cap(e) = floor(f(e)) is the
+    largest value of the integer Edge column (upper bound = the edge's own flow value) and inflow(C) = total flow entering
+    C from outside = total weight of the walks that visit C at all (the condensation is acyclic: a walk enters C at most
+    once; a source of the caller's graph has no incoming edge, so no walk starts inside a non-trivial C).  Then the walks
+    through e would have to traverse it  f(e) / inflow(C) > cap(e)  times on average: every decomposition contains a walk
+    whose multiplicity on e exceeds the implementation's own cap.  Exact arithmetic.  Returns a description or None."""
+    comp = {}
+    for i, C in enumerate(nx.strongly_connected_components(G)):
+        for v in C:
+            comp[v] = i
+    inflow = {}
+    for u, v, d in G.edges(data=True):
+        if comp[u] != comp[v]:
+            inflow[comp[v]] = inflow.get(comp[v], F(0)) + F(d[attr])
+    for u, v, d in G.edges(data=True):
+        if comp[u] == comp[v]:
+            f = F(d[attr]); cap = math.floor(f); tot = inflow.get(comp[u], F(0))
+            if f > cap * tot:
+                return {"edge": [u, v], "flow": str(f), "implementation_cap": cap, "weight_of_all_walks_through_its_component": str(tot),
+                        "average_multiplicity_needed": (str(f / tot) if tot else "inf")}
+    return None
+
+
+def caps_lp_certificate(G, attr="flow", limit=100000):
+    """second-level certificate for the same finding, for small cap boxes: enumerate ALL walk multiplicity vectors that
+    respect the implementation's caps (floor(f(e)) inside SCCs, 1 outside) and ask an LP whether some non-negative
+    combination of them equals the flow (any number of walks: by Caratheodory <= |E| suffice, zero-weight padding does the
+    rest).  Infeasible => no decomposition respects the caps.  Returns a description, or None (feasible / box too large)."""
+    import highspy, numpy as np
+    cap = {}
+    box = 1
+    for u, v, d in G.edges(data=True):
+        cap[(u, v)] = math.floor(F(d[attr])) if nx.has_path(G, v, u) else 1
+        box *= cap[(u, v)] + 1
+        if box > limit:
+            return None
+    cands = ow.candidates(G, cap)
+    h = highspy.Highs(); h.setOptionValue("output_flag", False); h.setOptionValue("threads", THREADS)
+    for _ in cands:
+        h.addVar(0.0, highspy.kHighsInf)
+    for (u, v, d) in G.edges(data=True):
+        idx = [j for j, x in enumerate(cands) if x.get((u, v), 0)]
+        vals = [float(cands[j][(u, v)]) for j in idx]
+        h.addRow(float(d[attr]), float(d[attr]), len(idx), np.array(idx, dtype=np.int32), np.array(vals, dtype=np.float64))
+    h.run()
+    if h.modelStatusToString(h.getModelStatus()) == "Infeasible":
+        return {"cap_respecting_walk_vectors": len(cands), "caps": {f"{u}->{v}": c for (u, v), c in cap.items()},
+                "lp": "no non-negative combination of them equals the flow"}
+    return None
+
+
+def presolve_false_infeasible(ctx, res):
+    """HiGHS 1.15.1: presolve sometimes reports a feasible MILP as kInfeasible.  Re-solve every model of this search that
+    ended kInfeasible with presolve off; True (and a count under solver_specification) if one of them is feasible."""
+    for r in res.get("log") or []:
+        if r.get("status") == "kInfeasible":
+            try:
+                again = lpdump.infeasible_without_presolve(r["model"].solver)
+            except Exception:
+                continue
+            if again == "Optimal":
+                ctx.count("solver_specification", "kInfeasible_from_presolve_on_a_feasible_model")
+                return True
+    return False
+
+
 def solve_mfdc(ctx, args):
     """runs MinFlowDecompCycles; returns dict(solved, k, sol, log, lb, model) ; E1 on every k tried through the hook"""
     import flowpaths as fp
@@ -265,7 +334,7 @@ def check_minimality(ctx, args, res, flow, kind, label=""):
     what = (f"MinFlowDecompCycles {'is unsolved' if impl_k is None else 'returns %d walks' % impl_k} but a decomposition into {k_spec} walks exists{label}")
     if explained and kind == "real":
         ctx.report(what, rep, key=KEY_CAP)
-    else:
+    elif not presolve_false_infeasible(ctx, res):
         ctx.report(what, rep)
     return False
 
@@ -369,9 +438,14 @@ def run(ctx):
             flow = {(u, v): F(d["flow"]) for u, v, d in G.edges(data=True)}
             check_minimality(ctx, args, res, flow, "int" if is_int else "real")
         elif not res["solved"] and not ign:
-            ctx.report("MinFlowDecompCycles is unsolved on a flow that was built as a superposition of walks",
-                       {"kind": "unsolved", "class": "MinFlowDecompCycles", "args": describe(args), "generating_walks": walks, "weights": [str(w) for w in ws]},
-                       key=(KEY_CAP if (not is_int and min(d["flow"] for _, _, d in G.edges(data=True)) < 1) else None))
+            cert = (cap_certificate(G) or caps_lp_certificate(G)) if not is_int else None
+            rep = {"kind": "unsolved", "class": "MinFlowDecompCycles", "args": describe(args), "generating_walks": walks,
+                   "weights": [str(w) for w in ws], "cap_certificate": cert}
+            if cert is not None:
+                ctx.report("MinFlowDecompCycles is unsolved on a flow that was built as a superposition of walks: every decomposition needs "
+                           "more traversals of some edge by one walk than the implementation's cap (= the edge's own flow value) allows", rep, key=KEY_CAP)
+            elif not presolve_false_infeasible(ctx, res):
+                ctx.report("MinFlowDecompCycles is unsolved on a flow that was built as a superposition of walks", rep)
         ctx.case(["mfdc", describe(args)], nontrivial=True, sample={"edges": describe(args)["edges"], "opts": describe(args)["optimization_options"],
                                                                      "walks": res["k"], "ks": [r["k"] for r in res["log"]]})
 
@@ -407,6 +481,8 @@ def run(ctx):
             explained = (kf_c == rc["k"] or (kf_c is None and (rc["k"] is None or rc["k"] > 3))) and \
                         (kf_1 == r1["k"] or (kf_1 is None and (r1["k"] is None or r1["k"] > 3)))
             ctx.count("E2_scale_invariance", "differences")
+            if not explained and (presolve_false_infeasible(ctx, rc) or presolve_false_infeasible(ctx, r1)):
+                continue
             ctx.report(f"scaling all flow values by {c} changes the answer of MinFlowDecompCycles (float weights): "
                        f"scale 1 -> {r1['k'] if r1['solved'] else 'unsolved'} walks, scale {c} -> {rc['k'] if rc['solved'] else 'unsolved'} walks",
                        {"kind": "scale", "class": "MinFlowDecompCycles", "args": describe(base), "factor": str(c),
@@ -489,5 +565,9 @@ def replay(ctx, body):
             if (rc.get("solved"), rc.get("k")) != (res["solved"], res["k"]):
                 return True
         if kind == "unsolved" and not res["solved"]:
-            return True
+            cert = (cap_certificate(args["G"]) or caps_lp_certificate(args["G"])) if args["weight_type"] == float else None
+            if cert is not None:
+                ctx.report("MinFlowDecompCycles is unsolved: every decomposition needs more traversals of an edge than its cap", {"cap_certificate": cert}, key=KEY_CAP)
+            elif not presolve_false_infeasible(ctx, res):
+                return True
     return len(ctx.violations) + len(ctx.known_hits) > before
